@@ -1,7 +1,8 @@
 #!/usr/bin/env python3
-"""Prints the prompt for a fresh seeding sub-agent: tools/seed_prompt.py <Cxx> <n>"""
+"""Prints the prompt for a fresh seeding sub-agent: tools/seed_prompt.py <Cxx> <n> [<what an earlier change already did - pick something else>]"""
 import json, sys
 pid, n = sys.argv[1], sys.argv[2]
+avoid = sys.argv[3] if len(sys.argv) > 3 else ""
 p = [json.loads(l) for l in open('/verif/properties.jsonl') if json.loads(l)['id'] == pid][0]
 wt = f"/tmp/seed-{pid}-{n}"
 print(f"""You are a careful Rust engineer playing the role of a *realistic regression*: your job is to write ONE plausible change to the open-source repository ldclabs/anda-db that BREAKS a stated behavioural property while still compiling and passing the repository's existing tests - the kind of mistake a competent contributor could make in a refactoring or optimisation and that code review and CI would not notice. Work fully offline (no network).
@@ -24,5 +25,7 @@ WHAT TO PRODUCE
    - the demonstration test file, copied verbatim, plus demo_cmd.txt with the exact cargo command that runs it and the crate-relative path where the file must be placed
    - meta.json : {{"property": "{pid}", "summary": "<one sentence: what the change does>", "needs": "<what specific circumstance it needs in order to manifest>", "touched_crates": [...], "existing_tests_run": "<commands and pass counts>", "demo_fails_with_change": true, "demo_passes_without_change": true}}
 5. Clean up: remove the build output ({wt}-target) and the worktree (`git -C /repo worktree remove --force {wt}`); keep only {wt}-out/.
+
+{("ANOTHER ENGINEER ALREADY DID THIS, so pick a different mechanism, a different function and a different way of manifesting (ideally a different clause of the property): " + avoid + chr(10) + chr(10)) if avoid else ""}Also: do not use `git stash` (its refs are shared between worktrees and other engineers work in parallel) - to test without your change, save your diff to a file, `git apply -R` it, and re-apply it afterwards; keep temporary files inside your own {wt}* paths only.
 
 Read the code you need (start from /repo's top-level README and the crate most relevant to the property). Prefer a change in the core logic the property depends on over one in test helpers, logging or documentation. Final answer: the summary, the 'needs' sentence, the touched file(s) and line(s), and the evidence that existing tests pass and the demo fails / passes as required.""")
